@@ -56,6 +56,9 @@ def to_canon(v):
         return ('f', v.get_arity())
     if isinstance(v, KGChannel):
         return ('x', 'channel')
+    if type(v).__module__.startswith('pandas') and hasattr(v, 'to_numpy'):
+        # pandas extension arrays (e.g. the string dtype) are list-like column values
+        return to_canon(np.asarray(v, dtype=object))
     if type(v).__module__.startswith('torch'):
         try:
             return to_canon(v.detach().cpu().numpy())
